@@ -499,7 +499,10 @@ J gen_tunnel(uint64_t seed, const J &ov)
 		gen_traffic(r, ops, "c0", "srv", (int)r.range(5, 40), 0.1, 1 + fdur, ser, 1200, true);
 		gen_traffic(r, ops, "srv", "c0", (int)r.range(5, 40), 0.1, 1 + fdur, ser, 1200, true);
 		// ... and continuing periodic traffic afterwards, both sides
-		double tend = 1 + fdur + settle + 60 + 45;
+		// ... every p seconds; in a fifth of the runs sparsely (one packet every 8-30 s per side, the way an idle login session or a
+		// monitoring probe uses a tunnel): recovery must not cost a number of offered packets, however few are offered
+		if (!hs && r.chance(0.2)) { p = 8 + r.uniform() * 22; cfg.set("sparse", true); }
+		double tend = 1 + fdur + settle + 60 + std::max(45.0, 4.5 * p);
 		cfg.set("period_s", p);
 		for (double t = 1 + fdur + r.uniform() * p; t < tend; t += p) {
 			for (int side = 0; side < 2; side++) {
